@@ -1194,6 +1194,19 @@ def iter_next(ex, st, it):
                 return o
             it.a = None
         return iter_next(ex, st, it.b)
+    if k == "map":
+        o = iter_next(ex, st, it.inner)
+        if o.variant == "None":
+            return o
+        return some(ex.call_closure(st, it.tymap, it.closure, [o.fields[0]]))
+    if k == "filter":
+        while True:
+            o = iter_next(ex, st, it.inner)
+            if o.variant == "None":
+                return o
+            keep = ex.call_closure(st, it.tymap, it.closure, [Ref(Cell(o.fields[0]))])
+            if ex.decide(st, keep):
+                return o
     if k == "chunks":
         if it.pos >= it.end:
             return NONE()
@@ -1263,6 +1276,102 @@ def m_iter_adapt(ex, st, fr, path, args, m):
         return NotImplemented
     if op == "by_ref":
         return it
+    return NotImplemented
+
+
+def as_iter(x):
+    """IterV for an iterator-like value (IterV, Range, &IterV)"""
+    if isinstance(x, Ref):
+        x = deref_val(x)
+    if isinstance(x, IterV):
+        return x
+    if isinstance(x, Agg) and x.name == "Range":
+        return IterV("range", cur=x.fields[0], end=x.fields[1])
+    if isinstance(x, VecObj):
+        return IterV("slice_val", ref=Ref(Cell(x), (), (0, len(x.elems))), pos=0, end=len(x.elems))
+    return None
+
+
+@model(r"^<(.*) as (?:std::iter::)?Iterator>::(map|filter|all|any|collect|sum|fold|for_each|position|max|min|last|nth|find)(::<.*>)?$")
+def m_iter_closure(ex, st, fr, path, args, m):
+    import copy
+    op = m.group(2)
+    src = args[0]
+    itv = as_iter(src)
+    if itv is None:
+        return NotImplemented
+    if op in ("map", "filter"):
+        return IterV(op, inner=itv, closure=args[1], tymap=dict(fr.tymap))
+    work = copy.deepcopy(itv)      # consume a copy first: a fork inside re-executes the whole call
+
+    def commit():
+        if isinstance(src, Ref) and isinstance(deref_val(src), IterV):
+            deref_val(src).__dict__.update(work.__dict__)
+    if op == "collect":
+        out = []
+        while True:
+            o = iter_next(ex, st, work)
+            if o.variant == "None":
+                break
+            out.append(o.fields[0])
+        gm = re.search(r"collect::<(.*)>$", path)
+        target = gm.group(1) if gm else ""
+        commit()
+        if target.startswith(("Vec<", "std::vec::Vec<")):
+            inner = target[target.index("<") + 1:-1]
+            return VecObj(out, inner)
+        if target in ("String", "std::string::String"):
+            return NotImplemented
+        return VecObj(out, None)
+    if op in ("all", "any"):
+        res = I("bool", op == "all")
+        while True:
+            o = iter_next(ex, st, work)
+            if o.variant == "None":
+                break
+            b = ex.call_closure(st, fr, args[1], [o.fields[0]])
+            d = ex.decide(st, b)
+            if op == "all" and not d:
+                res = I("bool", 0)
+                break
+            if op == "any" and d:
+                res = I("bool", 1)
+                break
+        commit()
+        return res
+    if op == "for_each":
+        while True:
+            o = iter_next(ex, st, work)
+            if o.variant == "None":
+                break
+            ex.call_closure(st, fr, args[1], [o.fields[0]])
+        return UNIT
+    if op == "fold":
+        acc = args[1]
+        while True:
+            o = iter_next(ex, st, work)
+            if o.variant == "None":
+                break
+            acc = ex.call_closure(st, fr, args[2], [acc, o.fields[0]])
+        return acc
+    if op == "last":
+        last = NONE()
+        while True:
+            o = iter_next(ex, st, work)
+            if o.variant == "None":
+                break
+            last = o
+        return last
+    if op == "position":
+        k = 0
+        while True:
+            o = iter_next(ex, st, work)
+            if o.variant == "None":
+                return NONE()
+            if ex.decide(st, ex.call_closure(st, fr, args[1], [o.fields[0]])):
+                commit()
+                return some(I("usize", k))
+            k += 1
     return NotImplemented
 
 
@@ -1538,3 +1647,112 @@ def m_atomic(ex, st, fr, path, args, m):
         return a.fields[0]
     a.fields[0] = args[1]
     return UNIT
+
+
+# ------------------------------------------------------------------------------------------------
+# `dyn Data` (engine::data_types::Data): the closed set of implementors the storage layer uses, as tagged sequences.
+#   Vec<T>            -> VecObj (ty = element type)
+#   NullableVec<T>    -> Agg("struct", [VecObj data, VecObj present], name="NullableVec")
+# ------------------------------------------------------------------------------------------------
+ENC_NAME = {"u8": "U8", "u16": "U16", "u32": "U32", "u64": "U64", "i64": "I64", "f64": "F64", "of64": "F64", "str": "Str", "usize": "USize"}
+
+
+def data_view(recv):
+    """(cell, path, data VecObj, present VecObj|None, elem type)"""
+    r = recv
+    v = deref_val(r)
+    while isinstance(v, Ref):
+        r = v
+        v = deref_val(r)
+    if isinstance(v, VecObj):
+        ty = elem_ty(v)
+        return r, v, None, ty
+    if isinstance(v, Agg) and v.name == "NullableVec":
+        return r, v.fields[0], v.fields[1], elem_ty(v.fields[0])
+    raise Unsupported(f"dyn Data receiver {v!r}")
+
+
+def elem_ty(v):
+    t = (v.ty or "").strip()
+    t = re.sub(r"^(?:ordered_float::)?OrderedFloat<f64>$", "f64", t)
+    t = {"&str": "str", "&'a str": "str"}.get(t, t)
+    if t in ENC_NAME:
+        return t
+    if v.elems:
+        e = v.elems[0]
+        if isinstance(e, I):
+            return e.ty
+        if isinstance(e, Agg) and e.name == "OrderedFloat":
+            return "f64"
+        if isinstance(e, Ref) and e.is_str:
+            return "str"
+    return t or "?"
+
+
+def boxed(v):
+    return Ref(Cell(v), (), None, False, True)
+
+
+@model(r"^<dyn (?:engine::data_types::(?:data::)?)?Data<.*> as (?:engine::data_types::(?:data::)?)?Data<.*>>::(\w+)$")
+def m_dyn_data(ex, st, fr, path, args, m):
+    op = m.group(1)
+    r, data, present, ty = data_view(args[0])
+    n = len(data.elems)
+    if op == "len":
+        return I("usize", n)
+    if op == "get_type":
+        name = ENC_NAME.get(ty)
+        if name is None:
+            raise Unsupported("get_type of Data<" + ty + ">")
+        return Agg("enum", [], name="EncodingType", variant=("Nullable" + name) if present is not None else name)
+    if op == "slice_box":
+        lo = ex.concretize(st, args[1], bound=n + 2)
+        hi = min(ex.concretize(st, args[2], bound=n + 2), n)
+        nd = VecObj([deep_clone(e) for e in data.elems[lo:hi]], data.ty or ty)
+        if present is None:
+            return boxed(nd)
+        # NullableVec::slice_box re-bases the bitmap
+        k = hi - lo
+        bits = []
+        for b in range((k + 7) // 8):
+            acc = I("u8", 0)
+            for j in range(8):
+                i = lo + 8 * b + j
+                if i < hi and i // 8 < len(present.elems):
+                    bitv = binop("BitAnd", binop("Shr", present.elems[i // 8], I("u8", i % 8)), I("u8", 1))
+                    acc = binop("BitOr", acc, binop("Shl", bitv, I("u8", j)))
+            bits.append(acc)
+        return boxed(Agg("struct", [nd, VecObj(bits, "u8")], name="NullableVec"))
+    cm = re.match(r"cast_ref_(u8|u16|u32|u64|i64|f64|str|usize|null_map)$", op)
+    if cm:
+        want = cm.group(1)
+        v = deref_val(r)
+        if want == "null_map":
+            if present is None:
+                raise Panic("cast_ref_null_map on non-nullable data")
+            return Ref(r.cell, r.path + (("f", 1),), (0, len(present.elems)))
+        if want != ty:
+            raise Panic(f"type error: cast_ref_{want} on Data<{ty}>")
+        if present is None:
+            return Ref(r.cell, r.path, (0, n))
+        return Ref(r.cell, r.path + (("f", 0),), (0, n))
+    if op == "make_nullable":
+        if present is not None:
+            raise Unsupported("make_nullable on nullable data")
+        pel, plo, phi = seq_of(args[1])
+        nd = VecObj(list(data.elems), data.ty or ty)
+        return boxed(Agg("struct", [nd, VecObj([deep_clone(e) for e in pel[plo:phi]], "u8")], name="NullableVec"))
+    return NotImplemented
+
+
+@model(r"^alloc::alloc::exchange_malloc$|^std::alloc::exchange_malloc$")
+def m_exchange_malloc(ex, st, fr, path, args, m):
+    return Ref(Cell(UNINIT), (), None, False, True)
+
+
+@model(r"^<Box<dyn (?:engine::data_types::(?:data::)?)?Data<.*>> as (?:mem_store::column::)?DataSource>::(len|encoding_type)$")
+def m_boxed_data_source(ex, st, fr, path, args, m):
+    r, data, present, ty = data_view(args[0])
+    if m.group(1) == "len":
+        return I("usize", len(data.elems))
+    return NotImplemented
